@@ -110,6 +110,7 @@ fn c13_native<F: Fam>(ctx: &Ctx, ast: &Ast, bytes: &[u8]) {
 /// every (name, level) pair in front of a valid rest of family F's own CONNECT
 fn c13_pairs<F: Fam>(ctx: &Ctx) -> u64 {
     let fam = F::FAMILY;
+    let thorough = ctx.thorough();
     let names: Vec<Vec<u8>> = vec![
         b"MQTT".to_vec(),
         b"MQIsdp".to_vec(),
@@ -126,6 +127,29 @@ fn c13_pairs<F: Fam>(ctx: &Ctx) -> u64 {
         vec![0xFF, 0xFE],
         vec![b'M', b'Q', 0xC3],
     ];
+    // names built from the protocol words and the level bytes themselves: all concatenations of <= 3 tokens
+    // (a level byte glued in front of / behind a correct name, two names, a name split by NUL, ...)
+    let mut names = names;
+    {
+        let toks: [&[u8]; 6] = [b"MQTT", b"MQIsdp", &[3], &[4], &[5], &[0]];
+        let mut cur: Vec<Vec<u8>> = vec![vec![]];
+        for _ in 0..3 {
+            let mut next = Vec::new();
+            for c in &cur {
+                for t in toks {
+                    let mut n = c.clone();
+                    n.extend_from_slice(t);
+                    next.push(n);
+                }
+            }
+            for n in &next {
+                if !names.contains(n) {
+                    names.push(n.clone());
+                }
+            }
+            cur = next;
+        }
+    }
     let hosts: Vec<Ast> = gen::values_of(fam, ptype::CONNECT, &gen::Scope::tiny());
     let mut n = 0u64;
     for host in &hosts {
@@ -136,8 +160,12 @@ fn c13_pairs<F: Fam>(ctx: &Ctx) -> u64 {
         let s = mutate::sites(&f.body);
         let name_path = s.iter().find(|(_, t)| *t == Tag::Str(StrKind::ProtoName)).map(|x| x.0.clone()).unwrap();
         let level_path = s.iter().find(|(_, t)| *t == Tag::ProtoLevel).map(|x| x.0.clone()).unwrap();
-        for name in &names {
+        for (ni, name) in names.iter().enumerate() {
             for level in 0..=255u8 {
+                // the token-built names get the levels around the legal ones (and their high-bit twins) only
+                if ni >= 14 && !thorough && ![0u8, 1, 2, 3, 4, 5, 6, 0x83, 0x84, 0x85, 0xFF].contains(&level) {
+                    continue;
+                }
                 let b = mutate::replace(&f.body, &name_path, Node::tag(Tag::Str(StrKind::ProtoName), Node::Len16(Box::new(Node::raw(name)))));
                 let b = mutate::replace(&b, &level_path, Node::tag(Tag::ProtoLevel, Node::raw(&[level])));
                 let bytes = enc::Frame { control: f.control, rl_pad: 0, rl_raw: None, body: b }.bytes().unwrap();
@@ -196,7 +224,7 @@ fn c13_pairs<F: Fam>(ctx: &Ctx) -> u64 {
 }
 
 pub fn c13(ctx: &Ctx) {
-    ctx.set_rule("every CONNECT of U_val (v3.1, v3.1.1, v5.0; reference encoding) x both decoder families x three front-ends: native family accepts; other family returns exactly UnexpectedProtocol(version), the async cursor stands right after the protocol level (whole and byte-wise delivery), and continuing on the same reader with the matching family's Connect::decode_with_protocol equals the native decode; all 256 levels x 11 names (correct, wrong case, truncated, extended, empty, NUL, non-UTF-8) in front of a valid rest x both families x three front-ends, and Protocol::new directly. Non-trivial = CONNECT values with optional content");
+    ctx.set_rule("every CONNECT of U_val (v3.1, v3.1.1, v5.0; reference encoding) x both decoder families x three front-ends: native family accepts; other family returns exactly UnexpectedProtocol(version), the async cursor stands right after the protocol level (whole and byte-wise delivery), and continuing on the same reader with the matching family's Connect::decode_with_protocol equals the native decode; all 256 levels x 270 names (correct, wrong case, truncated, extended, empty, NUL, non-UTF-8, and every concatenation of <= 3 tokens from MQTT, MQIsdp, 03, 04, 05, 00 - those with the levels 0..6, 83, 84, 85, ff in the quick tier, all 256 in the thorough tier) in front of a valid rest x both families x three front-ends, and Protocol::new directly. Non-trivial = CONNECT values with optional content");
     let sc = scope_of(ctx);
     let v3c = gen::values_of(Family::V3, ptype::CONNECT, &sc);
     let v5c = gen::values_of(Family::V5, ptype::CONNECT, &sc);
